@@ -1,13 +1,11 @@
 //! C01 — rendered text is exactly what the translation source says (parser-level observation).
 
-use serde_json::json;
-use vcommon::ctx::{hash_str, CaseInfo, CaseResult, Ctx};
-use vcommon::gen::{Gen, GenCfg};
-use vcommon::ser;
-use vcommon::tape::Tape;
+use vcommon::ctx::Ctx;
+use vcommon::gen::GenCfg;
 
 use crate::eval::Scratch;
-use crate::projcheck::{check_project, CheckOpts};
+use crate::projcheck::CheckOpts;
+use crate::props::common::project_case;
 
 pub fn cfg() -> GenCfg {
     GenCfg {
@@ -26,52 +24,18 @@ pub fn cfg() -> GenCfg {
     }
 }
 
-pub fn case(t: &mut Tape, scratch: &Scratch) -> CaseResult {
-    let style_seed = t.u64();
-    let mut g = Gen::new(t, cfg());
-    let p = g.project();
-    let mut opts = CheckOpts::default();
-    opts.style.seed = style_seed;
-    let st = check_project(&p, &opts, &scratch.0.join("p"), t)?;
-    let txt = serde_json::to_string(&ser::project_to_json(&p)).unwrap_or_default();
-    let mut classes = vec![];
-    if st.rendered_with_interp > 0 {
-        classes.push("interpolated".to_string());
-    }
-    if st.comp_depth_max >= 2 {
-        classes.push("nested-components".to_string());
-    }
-    if st.comp_depth_max >= 4 {
-        classes.push("component-depth>=4".to_string());
-    }
-    if p.namespaces.is_some() {
-        classes.push("namespaces".to_string());
-    }
-    if st.defaulted_any > 0 {
-        classes.push("some-key-defaulted".to_string());
-    }
-    if st.fk_any > 0 {
-        classes.push("foreign-key".to_string());
-    }
-    if st.expected_error {
-        classes.push("expected-error".to_string());
-    }
-    Ok(CaseInfo {
-        hash: hash_str(&txt),
-        nontrivial: st.rendered_with_interp > 0 && !st.expected_error,
-        classes,
-        sample: Some(json!({"project": ser::project_to_json(&p), "observations": st.observations})),
-        observations: st.observations,
-    })
-}
-
 pub fn run(mut ctx: Ctx) -> ! {
     let scratch = Scratch::new("c01");
+    let case = |t: &mut vcommon::tape::Tape| {
+        project_case(t, cfg(), CheckOpts::default(), &scratch, None, &|_, st| {
+            st.rendered_with_interp > 0 && !st.expected_error
+        })
+    };
     if let Some(path) = ctx.replay.clone() {
-        ctx.replay_tape("l1", &path, |t| case(t, &scratch));
+        ctx.replay_tape("l1", &path, case);
     } else {
-        let cases = ctx.tier.scale(1500, 40000);
-        ctx.run_tapes("l1", cases, 1200, |t| case(t, &scratch));
+        let cases = ctx.tier.scale(4000, 120000);
+        ctx.run_tapes("l1", cases, 1200, case);
     }
     drop(scratch);
     ctx.finish(
